@@ -3,6 +3,7 @@ package props
 import (
 	"crypto/x509"
 	"crypto/x509/pkix"
+	"encoding/asn1"
 	"fmt"
 	"math/big"
 	mrand "math/rand"
@@ -312,6 +313,32 @@ func c05(x *mon.Ctx) {
 				w.RootCRL = world.MkCRLEntries(base.PKI.Root, this, next, es)
 			}
 			add(w, "revoked-with-reason-code", fmt.Sprintf("%s/%d", tname, rc), "reject", on)
+		}
+	}
+	// ---- entry extensions on the revoking entry: critical and non-critical, known (certificateIssuer, invalidityDate, holdInstruction)
+	//      and private ones, several at once — a listed serial is listed (or the CRL is refused); never "this entry does not count"
+	for tname, serial := range cw.targets {
+		gn, _ := asn1.Marshal([]asn1.RawValue{{Class: 2, Tag: 4, IsCompound: true, Bytes: base.PKI.Root.Cert.RawSubject}})
+		inv, _ := asn1.Marshal(this.Add(-world.Day))
+		hold, _ := asn1.Marshal(asn1.ObjectIdentifier{1, 2, 840, 10040, 2, 2})
+		for ename, exts := range map[string][]pkix.Extension{
+			"private-critical":                {{Id: asn1.ObjectIdentifier{1, 3, 6, 1, 4, 1, 99999, 1}, Critical: true, Value: []byte{0x05, 0x00}}},
+			"private-non-critical":            {{Id: asn1.ObjectIdentifier{1, 3, 6, 1, 4, 1, 99999, 1}, Value: []byte{0x05, 0x00}}},
+			"certificate-issuer-critical":     {{Id: asn1.ObjectIdentifier{2, 5, 29, 29}, Critical: true, Value: gn}},
+			"invalidity-date":                 {{Id: asn1.ObjectIdentifier{2, 5, 29, 24}, Value: inv}},
+			"invalidity-date-critical":        {{Id: asn1.ObjectIdentifier{2, 5, 29, 24}, Critical: true, Value: inv}},
+			"hold-instruction":                {{Id: asn1.ObjectIdentifier{2, 5, 29, 23}, Value: hold}},
+			"private-critical-and-invalidity": {{Id: asn1.ObjectIdentifier{1, 3, 6, 1, 4, 1, 99999, 2}, Critical: true, Value: []byte{0x01, 0x01, 0xff}}, {Id: asn1.ObjectIdentifier{2, 5, 29, 24}, Value: inv}},
+			"garbage-value-critical":          {{Id: asn1.ObjectIdentifier{2, 5, 29, 29}, Critical: true, Value: []byte{0xff, 0xff}}},
+		} {
+			w := base.Clone()
+			es := []x509.RevocationListEntry{{SerialNumber: big.NewInt(5), RevocationTime: this}, {SerialNumber: serial, RevocationTime: this, ExtraExtensions: exts}, {SerialNumber: big.NewInt(6), RevocationTime: this, ReasonCode: 8}}
+			if tname == "leaf" {
+				w.PckCRL = world.MkCRLEntries(base.PKI.Inter, this, next, es)
+			} else {
+				w.RootCRL = world.MkCRLEntries(base.PKI.Root, this, next, es)
+			}
+			add(w, "revoked-with-entry-extension", tname+"/"+ename, "reject", on)
 		}
 	}
 	// ---- odd revocation dates on the revoking entry (year 1 = Go's zero time, far future, before thisUpdate): listed is listed
